@@ -21,7 +21,7 @@ import json
 import lib.compat  # noqa
 from migen import *
 from lib.fastsim import FastSim, MigenSim, compile_dut, HarnessError
-from lib.native import NativeSlave, schedule_iter
+from lib.native import NativeSlave, schedule_iter, native_slave
 
 FIXED, INCR, WRAP = 0, 1, 2
 BNAME = {0: "FIXED", 1: "INCR", 2: "WRAP"}
@@ -392,7 +392,7 @@ def run_axi(cfg, stim, backend="fast", max_cycles=None, trace=None):
     cycles (a deadlocked bridge is reported without simulating the whole cap)"""
     dut, sim = get_sim(cfg, backend)
     sl = stim.get("slave", {})
-    slave = NativeSlave([dut.port], ready_pattern=sl.get("ready"), wlat=sl.get("wlat"), rlat=sl.get("rlat"), qmax=sl.get("qmax", 8))
+    slave = native_slave([dut.port], sl)
     master = AXIMaster(dut.axi, cfg, stim)
     cap = max_cycles or cycle_cap(cfg, stim)
     lim = idle_limit(stim)
@@ -423,6 +423,8 @@ def run_axi(cfg, stim, backend="fast", max_cycles=None, trace=None):
                 last_act = t
             elif t - last_act > lim and max_cycles is None:
                 break
+    if hasattr(slave, "finish"):
+        slave.finish(t)
     r = AXIRun()
     r.cfg, r.stim, r.dut, r.master, r.slave, r.cycles, r.completed, r.cap = cfg, stim, dut, master, slave, t, done, cap
     r.idle_stop = (not done) and t < cap
@@ -562,6 +564,9 @@ def oracle_axi(run, P="C09"):
 
     # ---- lost beats on the native side -------------------------------------------------------------------
     for e in s.lost:
+        if e[0] == "W-extra":
+            fs.append(dict(clause=P + ".extra_write_beat", key=key(e[0]), what="stream-style native port: more write-data beats than write commands were put on the port (a beat is left over at the end of the run)"))
+            break
         fs.append(dict(clause=P + ".lost_beat", key=key(e[0]), what="native-side %s at cycle %d (word 0x%x): the bridge was not %s when the one-cycle strobe arrived" % (
             e[0], e[1], e[3], "presenting write data" if e[0].startswith("W") else "ready for read data")))
         break
